@@ -125,6 +125,11 @@ class _KHooks(GraphHooks):
                     h = path.heap[o.oid]
                     a = [I.snapshot(x, path) for x in args] + \
                         [Const(None), Const(None)]
+                    kwd = dict(kw)
+                    if 'V' in kwd:
+                        a[0] = I.snapshot(kwd['V'], path)
+                    if 'E' in kwd:
+                        a[1] = I.snapshot(kwd['E'], path)
                     h.fields['$base'] = App('mkgraph', a[0], a[1])
                     h.fields['$edges'] = path.alloc('set')
                     h.fields['$nodes'] = path.alloc('set')
